@@ -50,12 +50,29 @@ func c10Pick(name, param string) uint {
 	return uint(x)
 }
 
+// c10HistValue: the histories put no constraint on the value (NaN and infinities included): the oracle
+// compares the emitted value with the specification applied to the same contributions.
+func c10HistValue(small bool) float64 {
+	if small {
+		return c10Value(true)
+	}
+	return verifFloat64("v")
+}
+
+func c10U32(name string, narrow bool) uint32 {
+	if narrow {
+		return uint32(verifUint16(name))
+	}
+	return verifUint32(name)
+}
+
 const c10Regex = "^(a|b)[0-9]$"
 
 var c10Names = []string{"a1", "b1", "a2", "c1"} // a1,a2 share capture group "a"; c1 does not match
 
 // VerifC10Hist. params: fun, events (one "x" per event), names (one "x" per usable name), outfmt,
-// cache ("1"/"0"), intervals, waits ("sym" or candidate list), small ("1": small-integer values).
+// cache ("1"/"0"), intervals, waits ("sym" or candidate list), small ("1": small-integer values),
+// narrow ("1": 16-bit timestamps and clock), first (pin the first event; splits an obligation for parallel runs).
 func VerifC10Hist() {
 	fun := verifParam("fun")
 	nev := len(verifParam("events"))
@@ -67,7 +84,9 @@ func VerifC10Hist() {
 	wait := c10Pick("wait", verifParam("waits"))
 	verifAssume(interval != 0) // interval 0 divides by zero: property C14
 
-	clock0 := verifUint32("clock0")
+	first := verifParam("first") // "" = any; "0" = tick, "k" = point with the k-th name
+	narrow := verifParam("narrow") == "1" // timestamps and clock drawn from 16 bits (cheaper queries)
+	clock0 := c10U32("clock0", narrow)
 	c10Clock = int64(clock0)
 	verifAssume(uint(c10Clock) >= wait) // the code's unsigned now-Wait is only meaningful then
 
@@ -96,11 +115,18 @@ func VerifC10Hist() {
 		tooOld0 := numTooOld.Count()
 		in0 := a.numIn.Count()
 
-		if kind := verifChoice("event", 1+nnames); kind > 0 {
+		kind := 0
+		if ev == 0 && first != "" {
+			kind, _ = strconv.Atoi(first) // the obligation is split by its first event
+			verifAssume(kind <= nnames)
+		} else {
+			kind = verifChoice("event", 1+nnames)
+		}
+		if kind > 0 {
 			// ---- a point arrives
 			name := c10Names[kind-1]
-			ts := verifUint32("ts")
-			val := c10Value(small)
+			ts := c10U32("ts", narrow)
+			val := c10HistValue(small)
 			a.AddMaybe([][]byte{[]byte(name), []byte("0"), []byte("0")}, val, ts)
 			verifSettle()
 			dOld := numTooOld.Count() - tooOld0
